@@ -25,10 +25,13 @@ def impl_env(hashseed=0):
     return env
 
 
-def _run(cmd, lines, env=None, timeout=1800):
+def _run(cmd, lines, env=None, timeout=900):
     data = '\n'.join(lines) + '\n'
-    pr = subprocess.run(cmd, input=data.encode(), stdout=subprocess.PIPE, stderr=subprocess.PIPE,
-                        env=env, timeout=timeout)
+    try:
+        pr = subprocess.run(cmd, input=data.encode(), stdout=subprocess.PIPE, stderr=subprocess.PIPE,
+                            env=env, timeout=timeout)
+    except subprocess.TimeoutExpired:
+        return ['ERROR timeout after %ds' % timeout] * len(lines)
     out = pr.stdout.decode().split('\n')
     if out and out[-1] == '':
         out.pop()
@@ -87,7 +90,13 @@ def classify(impl, model):
             return 'error'
         if 'OverflowError' in impl or has_nonfinite(impl):
             return 'range'
+        if impl.startswith('PYERR') or impl.startswith('WARN PYERR'):
+            # the model is proved free of foreign exceptions in exact arithmetic (C17): when the
+            # float model raises one too, an intermediate left the double range (e.g. sin(inf))
+            return 'range'
         return 'agree'
+    if impl.startswith('PYERR') and model.startswith('PYERR'):
+        return 'range'
     if 'OverflowError' in impl or 'OverflowError' in model or has_nonfinite(impl) or has_nonfinite(model):
         return 'range'
     if model.startswith('FUEL') or impl.startswith('WARN'):
